@@ -1,6 +1,6 @@
 (* C13: the statements handed to Props/Properties_C13.v *)
 From Coq Require Import List NArith ZArith Bool Arith Lia.
-From Quill Require Import Time.TimeModel Time.TimeSpec Time.TimeStrings Time.TimeInit Time.TimeDigits
+From Quill Require Import Time.TimeModel Time.TimeSpec Time.TimeStrings Time.TimeStrict Time.TimeInit Time.TimeDigits
   Time.TimeProofs Time.TimeTF Time.TimeRefute.
 Import ListNotations.
 
@@ -8,26 +8,28 @@ Definition instants_ok (items1 items2 : list item) (strf : str -> Z -> str) (nss
   Forall (fun ns => (0 <= ns)%Z) nss /\
   (uses_s (items1 ++ items2) -> H2s strf /\ Forall (fun ns => ten_digit (ns / 1000000000)) nss).
 
-Definition renders_like_strftime (local : bool) (strf : str -> Z -> str) (sodf : Z -> N)
+(* [strict] = the code variant (true = the repaired constructor, false = the pinned earlier one);
+   the main theorems hold for both *)
+Definition renders_like_strftime (strict local : bool) (strf : str -> Z -> str) (sodf : Z -> N)
   (items1 : list item) (k : option fkind) (items2 : list item) (nss : list Z) : Prop :=
-  exists x, tf_init (pattern_of items1 k items2) = inl x /\
+  exists x, tf_init strict (pattern_of items1 k items2) = inl x /\
             tf_run strf sodf local x nss = map (ref_render strf items1 k items2) nss.
 
 Lemma c13_gmt strf sodf off zid :
   H1 strf -> H2 strf sodf off -> H3 strf off zid -> zone_gmt off zid ->
-  forall items1 k items2 nss, wf_items items1 -> wf_items items2 -> instants_ok items1 items2 strf nss ->
-  renders_like_strftime false strf sodf items1 k items2 nss.
+  forall strict items1 k items2 nss, wf_items items1 -> wf_items items2 -> instants_ok items1 items2 strf nss ->
+  renders_like_strftime strict false strf sodf items1 k items2 nss.
 Proof.
-  intros h1 h2 h3 hz items1 k items2 nss W1 W2 [Hn Hs].
+  intros h1 h2 h3 hz strict items1 k items2 nss W1 W2 [Hn Hs].
   eapply (tf_main strf sodf false off zid h1 h2 h3 (hstab_gmt off zid hz)); eauto.
 Qed.
 
 Lemma c13_local strf sodf off zid :
   H1 strf -> H2 strf sodf off -> H3 strf off zid -> zone_ok off zid ->
-  forall items1 k items2 nss, wf_items items1 -> wf_items items2 -> instants_ok items1 items2 strf nss ->
-  renders_like_strftime true strf sodf items1 k items2 nss.
+  forall strict items1 k items2 nss, wf_items items1 -> wf_items items2 -> instants_ok items1 items2 strf nss ->
+  renders_like_strftime strict true strf sodf items1 k items2 nss.
 Proof.
-  intros h1 h2 h3 hz items1 k items2 nss W1 W2 [Hn Hs].
+  intros h1 h2 h3 hz strict items1 k items2 nss W1 W2 [Hn Hs].
   eapply (tf_main strf sodf true off zid h1 h2 h3 (hstab_local off zid hz)); eauto.
 Qed.
 
@@ -40,23 +42,65 @@ Lemma c13_frac buf k ns : (0 <= ns)%Z ->
 Proof. intros H. split; [now apply frac_written|now apply frac_spec]. Qed.
 
 Lemma c13_rejects :
-  (forall items k1 k2, k1 <> k2 -> In (Frac k1) items -> In (Frac k2) items ->
-     tf_init (flat items) = inr ErrExclusive) /\
-  (forall items1 k items2,
+  (forall strict items k1 k2, k1 <> k2 -> In (Frac k1) items -> In (Frac k2) items ->
+     tf_init strict (flat items) = inr ErrExclusive) /\
+  (forall strict items1 k items2,
      Forall wf_itemX items1 -> Forall wf_itemX items2 ->
      adj_ok sp_special items1 = true -> adj_ok sp_special items2 = true ->
      In (Conv [88%N]) (match k with Some _ => items1 ++ items2 | None => items1 end) ->
-     tf_init (pattern_of items1 k items2) = inr ErrX).
-Proof. split; [exact rejects_two_kinds|exact rejects_X]. Qed.
+     tf_init strict (pattern_of items1 k items2) = inr ErrX) /\
+  (forall a k b c, tf_init true (flat (a ++ Frac k :: b ++ Frac k :: c)) = inr ErrExclusive).
+Proof. split; [exact rejects_two_kinds|]. split; [exact rejects_X|exact rejects_same_twice]. Qed.
 
-Lemma c13_fine_refuted :
+(* what "the segment handed to StringFromTime is clean" means *)
+Definition clean_segment (f : str) : Prop := find_sub m_X f = None /\ unpatchable f = false.
+
+Lemma c13_rejects_unpatchable :
+  (forall items1 k items2 b,
+     Forall wf_itemF items1 -> Forall wf_itemF items2 ->
+     adj_ok sp_special items1 = true -> adj_ok sp_special items2 = true ->
+     classify b = Some Fine ->
+     In (Conv b) (match k with Some _ => items1 ++ items2 | None => items1 end) ->
+     tf_init true (pattern_of items1 k items2) = inr ErrX) /\
+  (forall items p c,
+     Forall tok_item items -> Forall (fun x => memN x skip_chars = true) p ->
+     (c = 99%N \/ (p <> [] /\ memN c time_chars = true)) ->
+     In (Conv (p ++ [c])) items -> sft_init true (flat items) = None) /\
+  (forall items, Forall tok_item items -> unpatchable (flat items) = existsb fine_item items) /\
+  (forall f x, tf_init true f = inl x ->
+     (tspec x = None /\ clean_segment f) \/
+     (exists k f1 f2, tspec x = Some k /\ f = f1 ++ spec_name k ++ f2 /\
+        clean_segment f1 /\ clean_segment f2 /\ find_sub (spec_name k) f2 = None)).
+Proof.
+  split; [exact rejects_fine|]. split; [exact flagged_rejected_gen|]. split; [exact unpatchable_items|].
+  intros f x H. destruct (accept_inv f x H) as [(A & B & C)|(k & f1 & f2 & A & B & C & D & E & F & G)].
+  - left. repeat split; auto.
+  - right. exists k, f1, f2. repeat split; auto.
+Qed.
+
+Definition stale_second (strf : str -> Z -> str) (sodf : Z -> N) (local : bool) (b : str) (t1 t2 : Z) : Prop :=
+  exists st, sft_init false (37%N :: b) = Some st /\
+             nth 1 (sft_run strf sodf local st [t1; t2]) [] <> strf (37%N :: b) t2.
+
+Lemma c13_fine_pinned :
   Forall (fun b => classify b = Some Fine) fine_bodies /\
+  (forall b, In b fine_bodies -> sft_init true (37%N :: b) = None) /\
   forall strf sodf local b t1 t2, In b fine_bodies ->
     (0 <= t1 <= t2)%Z -> (t2 < next_recalc local t1)%Z ->
-    strf (37%N :: b) t1 <> strf (37%N :: b) t2 ->
-    exists st, sft_init (37%N :: b) = Some st /\
-               nth 1 (sft_run strf sodf local st [t1; t2]) [] <> strf (37%N :: b) t2.
-Proof. split; [exact fine_classified|exact fine_refuted]. Qed.
+    strf (37%N :: b) t1 <> strf (37%N :: b) t2 -> stale_second strf sodf local b t1 t2.
+Proof. split; [exact fine_classified|]. split; [exact fine_rejected|exact fine_refuted]. Qed.
+
+Lemma c13_flagged_pinned :
+  (forall b, In b flagged_bodies -> sft_init true (37%N :: b) = None) /\
+  forall strf sodf local b t1 t2, In b flagged_bodies ->
+    (0 <= t1 <= t2)%Z -> (t2 < next_recalc local t1)%Z ->
+    strf (37%N :: b) t1 <> strf (37%N :: b) t2 -> stale_second strf sodf local b t1 t2.
+Proof. split; [exact flagged_rejected|exact flagged_refuted]. Qed.
+
+Lemma c13_same_spec_pinned :
+  (forall k, tf_init true (spec_name k ++ spec_name k) = inr ErrExclusive) /\
+  exists x b, tf_init false (spec_name Qms ++ spec_name Qms) = inl x /\ tp2 x = Some b /\ tfmt b = spec_name Qms.
+Proof. split; [exact same_spec_rejected|exact same_spec_refuted]. Qed.
 
 (* the hypotheses of c13_gmt / c13_local hold together for a concrete oracle, and the theorems
    then speak about a concrete pattern: "%Y-%m-%d %H:%M:%S.%Qms %p" *)
@@ -81,12 +125,12 @@ Proof.
 Qed.
 
 (* the theorem instantiated: what the model prints for the example under the concrete oracle *)
-Lemma c13_gmt_example :
-  exists x, tf_init (pattern_of ex_items1 (Some Qms) ex_items2) = inl x /\
+Lemma c13_gmt_example : forall strict,
+  exists x, tf_init strict (pattern_of ex_items1 (Some Qms) ex_items2) = inl x /\
     nth 0 (tf_run (mini 0) (msod 0) false x [1000000000123456789; 1000000001000000000; 999999999000000001]%Z) []
     = (* ?-?-? 01:46:40.123 ? *) [63;45;63;45;63;32;48;49;58;52;54;58;52;48;46;49;50;51;32;63]%N.
 Proof.
-  destruct c13_gmt_nonvacuous as (a & b & c & d & _ & e & f & g).
-  destruct (c13_gmt _ _ _ _ a b c d ex_items1 (Some Qms) ex_items2 _ e f g) as (x & E & R).
+  intros strict. destruct c13_gmt_nonvacuous as (a & b & c & d & _ & e & f & g).
+  destruct (c13_gmt _ _ _ _ a b c d strict ex_items1 (Some Qms) ex_items2 _ e f g) as (x & E & R).
   exists x. split; [exact E|]. rewrite R. vm_compute. reflexivity.
 Qed.
